@@ -93,10 +93,39 @@ func runC14(c *ev.Ctx) {
 			}
 		}
 	}
+	if c.Thorough() {
+		// PRNG scripts of 8-12 events: several flushes of A, chains, traffic, both releases
+		r := c.Rand("c14scripts")
+		for _, k := range kinds {
+			for i := 0; i < 150; i++ {
+				idx++
+				mine := c.Mine(idx)
+				n := 8 + r.Intn(5)
+				var sc []int
+				for j := 0; j < n; j++ {
+					sc = append(sc, []int{0, 0, 3, 4, 3, 0}[r.Intn(6)])
+				}
+				sc[r.Intn(n)] = 1
+				sc[r.Intn(n)] = 2
+				has1 := false
+				for _, e := range sc {
+					if e == 1 {
+						has1 = true
+					}
+				}
+				if !has1 {
+					sc = append(sc, 1)
+				}
+				if mine {
+					c14Run(c, k, "random", sc)
+				}
+			}
+		}
+	}
 	c14Idle(c)
 }
 
-var c14ev = []string{"F", "RA", "RB", "T"}
+var c14ev = []string{"F", "RA", "RB", "T", "C"}
 
 func c14Run(c *ev.Ctx, k c14kind, variant string, sc []int) {
 	var names []string
@@ -126,7 +155,7 @@ func c14Run(c *ev.Ctx, k c14kind, variant string, sc []int) {
 	defer gB.Release()
 	p := cc.p
 	from := p.NReplies()
-	const tagA, tagB, tagF, tagF2, tagT = 300, 301, 310, 311, 320
+	const tagA, tagB, tagF2 = 300, 301, 311
 	mark := w.fs.NCalls()
 	k.send(p, tagA, fidA)
 	p.Send(wire.Tread, tagB, fidB, u(0), u(4))
@@ -138,18 +167,40 @@ func c14Run(c *ev.Ctx, k c14kind, variant string, sc []int) {
 	flushSentWhileParked := false
 	released := false
 	expect := map[uint16]bool{tagA: true, tagB: true}
+	flushA := []uint16{} // tags of flushes naming A
+	nF, nT := 0, 0
+	lastFlush := uint16(0)
 	for _, e := range sc {
 		switch e {
+		case 4: // C: a flush naming the most recent flush (or an idle tag if none)
+			ft := uint16(330 + nF)
+			nF++
+			old := uint64(4242)
+			if lastFlush != 0 {
+				old = uint64(lastFlush)
+			}
+			p.Send(wire.Tflush, ft, old)
+			expect[ft] = true
+			lastFlush = ft
+			quiesce.WaitUntil(func() bool { return p.HasReplyFrom(ft, from) != nil }, 30*time.Second)
 		case 0: // F
-			flushSentWhileParked = !released
+			flushSentWhileParked = flushSentWhileParked || !released
+			tagF := uint16(310 + nF)
+			if nF == 0 {
+				tagF = 310
+			}
+			nF++
+			lastFlush = tagF
+			flushA = append(flushA, tagF)
 			p.Send(wire.Tflush, tagF, u(tagA))
 			expect[tagF] = true
 			if variant == "two-for-one" {
 				p.Send(wire.Tflush, tagF2, u(tagA))
 				expect[tagF2] = true
+				flushA = append(flushA, tagF2)
 			}
 			if variant == "chain" {
-				p.Send(wire.Tflush, tagF2, u(tagF))
+				p.Send(wire.Tflush, tagF2, uint64(tagF))
 				expect[tagF2] = true
 			}
 			// give the flush handler every chance to answer: wait for the
@@ -164,6 +215,8 @@ func c14Run(c *ev.Ctx, k c14kind, variant string, sc []int) {
 			p.WaitTag(tagB, from)
 		case 3: // T
 			// StatFS is unclassified: not even a parked rename orders it
+			tagT := uint16(320 + nT)
+			nT++
 			p.Send(wire.Tstatfs, tagT, fidT)
 			expect[tagT] = true
 			if _, ok, o, d := p.WaitTag(tagT, from); !ok {
@@ -196,10 +249,7 @@ func c14Run(c *ev.Ctx, k c14kind, variant string, sc []int) {
 			mineCalls = append(mineCalls, cl)
 		}
 	}
-	for _, ft := range []uint16{tagF, tagF2} {
-		if variant == "chain" && ft == tagF2 {
-			continue // flush of a flush: ordered after the first flush only
-		}
+	for _, ft := range flushA {
 		for _, rf := range replies[ft] {
 			if rf.Msg.Type != wire.Rflush {
 				c.Violation("C14:flush-answered-with-"+wire.TypeName(rf.Msg.Type), det)
@@ -224,10 +274,6 @@ func c14Run(c *ev.Ctx, k c14kind, variant string, sc []int) {
 				}
 			}
 		}
-	}
-	if variant == "chain" && len(replies[tagF2]) == 1 && len(replies[tagF]) == 1 {
-		// flush(F) is answered only after F stopped executing, i.e. after A did.
-		// (F executes no backend call, so only the reply order is observable.)
 	}
 	for _, m := range p.Monitor() {
 		c.Violation("C14:reply-stream:"+firstWord(m), map[string]any{"monitor": m, "A": k.name, "script": script})
